@@ -619,3 +619,139 @@ def rule_monotone_allocation(ctx):
                         okop = False
                     r.check(okop, "%s.%s|%s" % (path, name, u.fn.path), "table-op:%s" % u.op, "table %s: %s" % (name, u.op), "variable table %s is modified by %s outside a full re-encoding" % (name, u.op), u.site.loc())
     r.floor(n, 10, "writes to allocation state of the dynamic encoders")
+
+
+# ------------------------------------------------------------------------------------------
+# vectors indexed by argument ids cover every id once arguments have been removed (found through an independent differential run: D11)
+
+
+def rule_id_indexed_vectors(ctx):
+    prog = ctx.prog
+    from .accept import _const_reach
+    from ..prov import prov, subterms, leaves, show
+
+    r = ctx.rule(
+        "id-indexed-vectors-cover-all-ids",
+        "in everything a dynamic solver's query can reach, a vector that is indexed by argument ids (or enumerated to visit the arguments by "
+        "id) is sized by the id bound `max_argument_id() + 1`, not by the number of live arguments: after a removal ids are no longer compact, "
+        "and an argument whose id is beyond the live count would be left out of the enumeration (e.g. out of a blocking clause's complement)",
+    )
+    roots = []
+    for tr in ("solvers::specs::CredulousAcceptanceComputer", "solvers::specs::SkepticalAcceptanceComputer"):
+        for imp in prog.impls_of_trait(tr):
+            if (imp.get("self_adt") or "").startswith("dynamics::"):
+                for m in imp["methods"]:
+                    b = prog.lib(m["path"])
+                    if b is not None:
+                        roots.append(b)
+    if not r.require_anchor(roots, "acceptance methods of the dynamic solvers"):
+        return
+    # resolved calls only (plus the closures of what is reached): trait-object calls would drag in the static solvers, which work on
+    # compact frameworks
+    reach = dict(prog.reachable_from(roots, virtual_dispatch=False))
+    for x in list(reach.values()):
+        for c in prog.closures_of(x):
+            reach[c.id] = c
+
+    def size_trees(body, op, depth=0):
+        """trees of a size operand, with plain-function parameters resolved through the callers (two levels)"""
+        out = set()
+        for e in prov(prog, body, op):
+            params = [l for l in leaves(e) if l[0] == "param" and l[1] == body.path and not l[3] and body.kind != "closure"]
+            if e[0] == "param" and params and depth < 3:
+                k = e[2]
+                cs = prog.callers_of(body)
+                if not cs:
+                    out.add(e)
+                for c in cs:
+                    if k - 1 < len(c.node["args"]):
+                        out |= size_trees(c.body, c.node["args"][k - 1], depth + 1)
+            else:
+                out.add(e)
+        return out
+
+    n = 0
+    for b in sorted(reach.values(), key=lambda x: x.id):
+        if not (b.target == "lib"):
+            continue
+        for s in b.calls():
+            if callee_decl(callee_of(s)) != "alloc::vec::from_elem" or len(s.node["args"]) != 2:
+                continue
+            v = s.node["dst"]["l"]
+            # is the vector addressed by argument ids?
+            by_id = False
+            for y in prog.with_closures(prog.enclosing_fn(b)):
+                for s2 in y.calls():
+                    d2 = callee_decl(callee_of(s2))
+                    if d2 in ("core::ops::index::Index::index", "core::ops::index::IndexMut::index_mut") and len(s2.node["args"]) == 2:
+                        recv = prov(prog, y, s2.node["args"][0])
+                        if not any(t[0] == "call" and t[1].endswith("from_elem") for e in recv for t in subterms(e) if isinstance(t, tuple)):
+                            continue
+                        same = any((o.kind == "call" and o.site is not None and o.site.body is b and (o.site.bb, o.site.si) == (s.bb, s.si)) for o in _vec_origins(prog, y, s2.node["args"][0]))
+                        if not same:
+                            continue
+                        for e in prov(prog, y, s2.node["args"][1]):
+                            if any(isinstance(t, tuple) and t[0] == "call" and re.search(r"Label::id$", t[1]) for t in subterms(e)):
+                                by_id = True
+                    if re.search(r"(has_argument_with_id|get_argument_by_id|has_label_with_id|get_label_by_id)$", d2) and len(s2.node["args"]) == 2:
+                        for e in prov(prog, y, s2.node["args"][1]):
+                            # the position in an enumeration of this very vector
+                            for t in subterms(e):
+                                if isinstance(t, tuple) and t[0] == "call" and t[1].endswith("Iterator::enumerate"):
+                                    if any(o.kind == "call" and o.site is not None and o.site.body is b and (o.site.bb, o.site.si) == (s.bb, s.si) for a0 in [t] for o in _enumerated_vec_origins(prog, y, s2)):
+                                        by_id = True
+            if not by_id:
+                continue
+            n += 1
+            trees = size_trees(b, s.node["args"][1])
+            anchor = "%s|vec#%d" % (prog.enclosing_fn(b).id, len([x for x in prog.enclosing_fn(b).calls() if callee_decl(callee_of(x)) == "alloc::vec::from_elem" and x.bb < s.bb]))
+            uses_bound = [any(isinstance(t, tuple) and t[0] == "call" and t[1].endswith("max_argument_id") for t in subterms(e)) for e in trees]
+            live_only = [e for e, ub in zip(trees, uses_bound) if not ub and any(isinstance(t, tuple) and t[0] == "call" and re.search(r"(n_arguments|ArgumentSet::len|LabelSet::len)$", t[1]) for t in subterms(e))]
+            if live_only:
+                r.violation(anchor, "sized-by-live-count", "a vector addressed by argument ids is sized by the number of live arguments (%s) in code a dynamic solver's query reaches: once arguments were removed, arguments whose id is not below that count are left out" % show(sorted(live_only, key=repr)[0])[:100], s.loc())
+            elif trees and all(uses_bound):
+                r.ok(anchor, "sized by the id bound (max_argument_id)", s.loc())
+            else:
+                r.ok(anchor, "NOT decided: size %s" % " | ".join(show(e)[:50] for e in sorted(trees, key=repr)[:2]), s.loc())
+    r.floor(n, 2, "id-addressed vectors in the reach of the dynamic solvers' queries")
+
+
+def _vec_origins(prog, y, op):
+    from ..tags import _closure_capture_operand
+
+    out = []
+    for o in origins(y, op):
+        if o.kind == "upvar":
+            par, cap = _closure_capture_operand(prog, y, o.data)
+            if cap is not None:
+                q = op_place(cap)
+                ds = par.defs.get(q["l"], []) if q is not None else []
+                if q is not None and not q["p"] and len(ds) == 1 and ds[0].si is not None and ds[0].node["k"] == "assign" and ds[0].node["rv"]["k"] == "ref":
+                    out += _vec_origins(prog, par, {"c": ds[0].node["rv"]["place"]})
+                else:
+                    out += _vec_origins(prog, par, cap)
+        else:
+            out.append(o)
+    return out
+
+
+def _enumerated_vec_origins(prog, y, lookup_site):
+    """origins of the collection whose enumeration position is handed to a by-id look-up in closure / loop y"""
+    out = []
+    if y.kind == "closure" and y.parent:
+        par = prog.by_target[y.target].get(y.parent["direct"])
+        if par is not None:
+            for cs in par.calls():
+                c = callee_of(cs)
+                if c is not None and y.path in (c.get("fn_args") or []) and cs.node["args"]:
+                    # receiver chain: enumerate(iter(vec))
+                    for o in origins(par, cs.node["args"][0], transparent=("core::iter::traits::iterator::Iterator::enumerate", "core::slice::iter", "core::iter::traits::collect::IntoIterator::into_iter", "core::ops::deref::Deref::deref")):
+                        if o.kind == "upvar":
+                            out += _vec_origins(prog, par, cs.node["args"][0])
+                        else:
+                            out.append(o)
+    else:
+        for s in y.calls():
+            if callee_decl(callee_of(s)) == "core::iter::traits::iterator::Iterator::enumerate" and s.node["args"]:
+                out += list(origins(y, s.node["args"][0], transparent=("core::slice::iter", "core::iter::traits::collect::IntoIterator::into_iter", "core::ops::deref::Deref::deref")))
+    return out
